@@ -114,7 +114,8 @@ def post_inv(ctx, call):
     Af = A.astype(complex)
     with np.errstate(all="ignore"):
         sv = np.linalg.svd(Af, compute_uv=False)
-    cond = sv[..., 0] / np.maximum(sv[..., -1], 1e-300)
+    with np.errstate(all="ignore"):
+        cond = np.where(sv[..., -1] > 0, sv[..., 0] / np.maximum(sv[..., -1], 1e-300), np.inf)  # the zero matrix is singular, not well-conditioned
     if call.exc is not None:
         if np.all(cond < 1e8):
             ctx.judge("inv", False, [A], what=f"inv raised {type(call.exc).__name__} for well-conditioned matrices (cond <= {float(np.max(cond)):.3g})", op="inv")
